@@ -19,6 +19,10 @@ func bcdEnc(in []byte) M {
 			return
 		}
 		out = M{"t": "ok", "v": ints(*r)}
+		// (the slice is the caller's now: appending to it - a date followed by a time, say - is the caller's business and
+		// nobody else's; whatever that writes into spare capacity must not show in any later result)
+		_ = append(append([]byte{}, (*r)[:0]...), 0) // (keeps vet quiet about the next line's discarded result)
+		_ = append(*r, 0x99, 0x99, 0x99)
 		s, err := bcd.Decode(*r)
 		if err != nil {
 			rt = M{"t": "err"}
@@ -127,6 +131,9 @@ func runC12(o *opts) (*summary, error) {
 
 	// all byte strings of length <= 2
 	w.put(bcdDec([]byte{}), "dec", "d")
+	w.put(bcdDec(nil), "dec", "dnil") // the empty sequence in its other guise
+	var nilBytes []byte
+	w.put(bcdDec(append(nilBytes, []byte{}...)), "dec", "dnil2")
 	for a := 0; a < 256; a++ {
 		w.put(bcdDec([]byte{byte(a)}), "dec", fmt.Sprintf("d%d", a))
 		for b := 0; b < 256; b++ {
